@@ -16,6 +16,9 @@ import (
 	"github.com/anthdm/hollywood/cluster"
 	"github.com/anthdm/hollywood/remote"
 	"google.golang.org/protobuf/proto"
+	"google.golang.org/protobuf/types/known/durationpb"
+	"google.golang.org/protobuf/types/known/emptypb"
+	"google.golang.org/protobuf/types/known/wrapperspb"
 	"storj.io/drpc"
 )
 
@@ -123,9 +126,12 @@ const (
 	pkPing
 	pkMember
 	pkActivation
-	pkNonProto // not a proto.Message: cannot be serialised
-	pkBadUTF8  // proto3 string with invalid UTF-8: Marshal fails
-	pkNilIface // nil interface value
+	pkEmptyTest // a registered (vtproto) message that encodes to zero bytes
+	pkEmptyPB   // google.protobuf.Empty: plain protobuf (no vtproto methods), zero bytes
+	pkWrapper   // google.protobuf.StringValue / Duration: plain protobuf, goes through the reflection-based path
+	pkNonProto  // not a proto.Message: cannot be serialised
+	pkBadUTF8   // proto3 string with invalid UTF-8: Marshal fails
+	pkNilIface  // nil interface value
 	numPayloadKinds
 )
 
@@ -141,6 +147,18 @@ func makePayload(k payloadKind, tag int) (msg any, serialisable bool) {
 		return &cluster.Member{ID: fmt.Sprint(tag), Host: "h", Region: "r", Kinds: []string{"k1", fmt.Sprint(tag)}}, true
 	case pkActivation:
 		return &cluster.Activation{PID: &actor.PID{Address: "x", ID: fmt.Sprintf("act/%d", tag)}}, true
+	case pkEmptyTest:
+		if tag%2 == 0 {
+			return &remote.TestMessage{}, true
+		}
+		return &actor.PID{}, true
+	case pkEmptyPB:
+		return &emptypb.Empty{}, true
+	case pkWrapper:
+		if tag%2 == 0 {
+			return wrapperspb.String(fmt.Sprintf("wrapped-%d", tag)), true
+		}
+		return &durationpb.Duration{Seconds: int64(tag), Nanos: int32(tag % 1000)}, true
 	case pkNonProto:
 		return fmt.Sprintf("i am not a proto message %d", tag), false
 	case pkBadUTF8:
